@@ -109,7 +109,10 @@ func (r *Reader) getTopics() []string {
 func (r *Reader) useSyncCommits() bool { return r.config.CommitInterval == 0 }
 
 func (r *Reader) unsubscribe() {
-	r.cancel()
+	r.mutex.Lock()
+	cancel := r.cancel
+	r.mutex.Unlock()
+	cancel()
 	r.join.Wait()
 	// it would be interesting to drain the r.msgs channel at this point since
 	// it will contain buffered messages for partitions that may not be
@@ -1190,6 +1193,10 @@ func (r *Reader) start(offsetsByPartition map[topicPartition]int64) {
 	r.cancel = cancel
 	r.version++
 
+	// the version is read by the goroutines below, which may run after a later
+	// call to start has incremented it again.
+	version := r.version
+
 	r.join.Add(len(offsetsByPartition))
 	for key, offset := range offsetsByPartition {
 		go func(ctx context.Context, key topicPartition, offset int64, join *sync.WaitGroup) {
@@ -1208,7 +1215,7 @@ func (r *Reader) start(offsetsByPartition map[topicPartition]int64) {
 				readBatchTimeout: r.config.ReadBatchTimeout,
 				backoffDelayMin:  r.config.ReadBackoffMin,
 				backoffDelayMax:  r.config.ReadBackoffMax,
-				version:          r.version,
+				version:          version,
 				msgs:             r.msgs,
 				stats:            r.stats,
 				isolationLevel:   r.config.IsolationLevel,
